@@ -168,6 +168,26 @@ def rule_b(repo, chk):
     news = [norm(s.value) for s in stmts_in(r, ast.Assign)]
     ok = any('RecursionDetector()' in x for x in news) and any('ExecutionRecursionDetector(' in x for x in news)
     chk.ob('C16.b', ok, r, 'reset_recursion_limitations installs fresh RecursionDetector and ExecutionRecursionDetector objects', str(news))
+    # every counter kept on the inference state that only grows is a per-query budget and must be re-initialised by the reset
+    init = repo.find('jedi.inference', 'InferenceState.__init__')
+    fields = {t.attr for a in stmts_in(init, ast.Assign) for t in a.targets if isinstance(t, ast.Attribute) and isinstance(t.value, ast.Name) and t.value.id == 'self'}
+    reset_fields = {t.attr for a in stmts_in(r, ast.Assign) for t in a.targets if isinstance(t, ast.Attribute) and isinstance(t.value, ast.Name) and t.value.id == 'self'}
+    grown, shrunk = {}, set()
+    for m in repo.modules.values():
+        for x in ast.walk(m.tree):
+            if isinstance(x, ast.AugAssign) and isinstance(x.op, (ast.Add, ast.Sub)):
+                tgt = x.target.value if isinstance(x.target, ast.Subscript) else x.target
+                if isinstance(tgt, ast.Attribute) and tgt.attr in fields and 'self' not in norm(tgt.value).split('.')[:1] or \
+                        (isinstance(tgt, ast.Attribute) and tgt.attr in fields and repo.qual_of(x).startswith('InferenceState')):
+                    if isinstance(x.op, ast.Add):
+                        grown.setdefault(tgt.attr, x)
+                    else:
+                        shrunk.add(tgt.attr)
+    chk.floor('C16.b', len(grown), 1, '(growing counters on the inference state)')
+    for fld, node in sorted(grown.items()):
+        ok = fld in reset_fields or fld in shrunk
+        chk.ob('C16.b', ok, node, 'counter InferenceState.%s (incremented here) is re-initialised by reset_recursion_limitations() or decremented symmetrically' % fld,
+               'it only grows over the life of a Script: a limit that reads it makes answers depend on the query history', key='budget-reset|%s' % fld)
     # the detectors keep no class-level (shared) state
     for cname in ('RecursionDetector', 'ExecutionRecursionDetector'):
         c = repo.cls('jedi.inference.recursion', cname)
